@@ -32,6 +32,10 @@ def main():
         name = os.path.basename(d)
         items.append(("seeded/" + name, os.path.join(d, "patch.diff"), name.split("-")[0], "git apply"))
     items = [i for i in items if flt in i[0]]
+    part = os.environ.get("AUDIT_PART")          # "k/n": every n-th item starting at k (several audits side by side, merged afterwards)
+    if part:
+        k_, n_ = map(int, part.split("/"))
+        items = items[k_::n_]
     report = {"at": time.strftime("%Y-%m-%d %H:%M:%S"), "mutants": {}}
     missed = 0
     for name, patch, cid, how in items:
@@ -65,7 +69,7 @@ def main():
     report["total"] = len(items)
     report["missed"] = missed
     if not flt:
-        with open(os.path.join(ROOT, "selftest", "mutation_report.json"), "w") as f:
+        with open(os.path.join(ROOT, "selftest", "mutation_report%s.json" % (".part%s" % part.split("/")[0] if part else "")), "w") as f:
             json.dump(report, f, indent=1)
     print("total=%d missed=%d" % (len(items), missed))
     return 1 if missed else 0
